@@ -13,6 +13,8 @@
 (***************************************************************************)
 EXTENDS Dataset, Json, IOUtils
 
+CONSTANT StrictInner   \* TRUE: also require the recorded inner calls to be exactly Dataset!InnerCalls (model conformance)
+
 TraceLog == ndJsonDeserialize(IOEnv.TRACE)
 VARIABLE l
 Ev == TraceLog[l]
@@ -20,8 +22,9 @@ Ev == TraceLog[l]
 InitOk(ev) ==
   LET want == InnerCalls(ev.start, ev.count)
   IN  /\ ev.start + ev.count <= ev.total
-      /\ Len(ev.inner) = Len(want)
-      /\ \A i \in 1..Len(want) : ev.inner[i] = <<want[i].s, want[i].e, want[i].dest>>
+      /\ (StrictInner => /\ Len(ev.inner) = Len(want)
+                         /\ \A i \in 1..Len(want) : ev.inner[i] = <<want[i].s, want[i].e, want[i].dest>>)
+      \* C08 proper: exactly the requested items changed, every one equals the light-mode item
       /\ IF ev.count = 0 THEN ev.changed = <<>>
          ELSE ev.changed = <<ev.start, ev.start + ev.count - 1, ev.count>>
       /\ ev.bad = 0 /\ ev.missing = 0
